@@ -3,10 +3,11 @@ from ..core import Anchor
 from .trav import BLOCK_LAYOUT, FUNCTION_LAYOUT, MODULE_LAYOUT, Trav, elem_type, expected_module_all
 
 EXPLANATION = (
-    "The six traversal methods and the four assemble_into implementations are read as sequences of field paths "
-    "(iterator chains and statement lists are normalised; calls of one traversal from another are inlined) and compared with "
-    "each other, with the declaration of dr::Module/Function/Block (every instruction-typed field must be visited) and with the "
-    "SPIR-V logical layout order. The property is a statement about code shape; it is decided in full.")
+    "The six traversal methods and the assemble_into implementations of Module/Function/Block are evaluated on an abstract module "
+    "(one distinct instruction in every section the struct declares, a complete function, a function without definition and "
+    "parameters whose first block has no label and whose last block is empty, and the same module without header and memory model); "
+    "the visited / emitted sequences must equal the SPIR-V logical layout order computed from the module value. The struct "
+    "declarations are read so that a new instruction-holding field cannot stay outside the abstract module.")
 EXHAUSTIVE = True
 
 
@@ -16,25 +17,23 @@ def run(ctx, chk):
     R = chk.rule("R-TRAV", "global_inst_iter[_mut], all_inst_iter[_mut], Function::all_inst_iter[_mut] and the assemble_into "
                  "implementations of Module/Function/Block walk identical field sequences in SPIR-V logical-layout order, covering "
                  "every instruction-typed field; _mut variants differ only in mutability")
-    exp = {("Module", "global_inst_iter"): MODULE_LAYOUT, ("Module", "all_inst_iter"): expected_module_all(),
-           ("Function", "all_inst_iter"): FUNCTION_LAYOUT}
+    from . import travx, headerx
+    cases = travx.cases(ctx)
     n = 0
-    for (ty, name), want in exp.items():
-        for mut in (False, True):
-            fname = name + ("_mut" if mut else "")
-            w = raw.where(fname, ty, "constructs.rs")
-            try:
-                seq = tv.iter_fn(ty, fname)
-            except Anchor as ex:
-                chk.bad(R, "%s::%s" % (ty, fname), "traversal is not in an analysable shape: %s" % ex, w)
-                continue
-            n += 1
-            paths = [p for p, _ in seq]
-            chk.check(R, paths == want, "%s::%s:sequence" % (ty, fname),
-                      "visits %s, expected %s" % (diffseq(paths, want), "the logical-layout order"), w, sample=paths)
-            chk.check(R, all(m == mut for _, m in seq), "%s::%s:mutability" % (ty, fname),
-                      "mixes shared and mutable iteration: %s" % [(p, m) for p, m in seq if m != mut], w)
-    chk.floor(R, "traversal methods", n, 6)
+    for inst, wh, got, want in cases:
+        if "assemble_into" in inst:
+            continue
+        n += 1
+        chk.check(R, got == want, inst + ":sequence", "on the abstract module (one instruction per section; a complete function and one without "
+                  "definition/parameters, with an unlabelled and an empty block) it visits %s, expected %s" % (
+                      diffseq(got, want) if isinstance(got, list) else got, "the assembly order"), raw.where(*wh), sample=got if inst == "Module::all_inst_iter" else None,
+                  key="C15:trav:" + inst.split(" (")[0])
+    chk.floor(R, "traversal cases", n, 9)
+    # the abstract module has one instruction in every section the struct declares
+    for f, fty in tv.fields["Module"].items():
+        if elem_type(fty) == "Instruction":
+            chk.check(R, f in travx.SECTION_ORDER, "Module.%s:in-abstract-module" % f, "field Module.%s: %s holds instructions but the abstract module leaves it empty" % (f, fty),
+                      "rspirv/dr/constructs.rs struct Module")
     # every instruction-typed field is visited
     for ty, layout in (("Module", MODULE_LAYOUT + ["functions"]), ("Function", ["def", "parameters", "blocks", "end"]),
                        ("Block", BLOCK_LAYOUT)):
@@ -51,25 +50,17 @@ def run(ctx, chk):
     A = chk.rule("R-ASM-ORDER", "Module::assemble_into = header then exactly the all_inst_iter sequence; Function/Block assemble_into "
                  "walk def, parameters, blocks(label, instructions), end")
     na = 0
-    for ty, want in (("Block", BLOCK_LAYOUT), ("Function", FUNCTION_LAYOUT), ("Module", ["header"] + expected_module_all())):
-        w = raw.where("assemble_into", ty, "assemble.rs")
-        try:
-            seq = tv.asm_fn(ty)
-        except Anchor as ex:
-            chk.bad(A, "%s::assemble_into" % ty, "not in an analysable shape: %s" % ex, w)
+    for inst, wh, got, want in cases:
+        if "assemble_into" not in inst:
             continue
         na += 1
-        chk.check(A, seq == want, "%s::assemble_into:sequence" % ty, "emits %s" % diffseq(seq, want), w, sample=seq)
-    try:
-        allseq = [p for p, _ in tv.iter_fn("Module", "all_inst_iter")]
-        chk.check(A, tv.asm_fn("Module") == ["header"] + allseq, "Module::assemble_into=header+all_inst_iter",
-                  "assembly order differs from all_inst_iter", raw.where("assemble_into", "Module", "assemble.rs"))
-    except Anchor:
-        pass
+        chk.check(A, got == want, inst + ":sequence", "emits %s, expected header, global sections in logical-layout order, then per function definition, "
+                  "parameters, per block label and instructions, end" % (diffseq(got, want) if isinstance(got, list) else got), raw.where(*wh),
+                  sample=got if inst == "Module::assemble_into" else None, key="C15:asm:" + inst.split(" (")[0])
     # ModuleHeader emission: five words in header order
     from . import headerx
     headerx.report(chk, A, raw, headerx.header_api_problems(ctx), only=["ModuleHeader::assemble_into"], keyp="C15")
-    chk.floor(A, "assemble_into impls", na, 3)
+    chk.floor(A, "assemble_into cases", na, 7)
     chk.analysed.update({"traversal_methods": n, "assemble_impls": na + 1})
 
 
